@@ -9,11 +9,13 @@ degrees blow toward south/west/north/east).
 Set-up (everything through the public interface): parse_config_dict with the tower's lat/lon
 chosen so that its local (x, y) is the centre of the domain, footprint=True, run_bldfm_single;
 centre of mass of result["flx"] on result["grid"].  "Resolved" is made concrete as: 5 m cells,
-measurement height 4 m, halo = max(xmax, ymax) (the solver's own default width, given explicitly
-as a whole number of cells), all Fourier modes of the padded grid retained.  With these settings
-the correct code is within 0.8 degrees for every case below (explored up to halo = 2*max: 0.1
-degrees); truncated mode sets or narrower halos bias the centroid through Gibbs ringing and
-periodic wrap-around by up to 4-9 degrees and are therefore not used as evidence.
+measurement height 2..4 m, halo = 1.5 * max(xmax, ymax) (a whole number of cells), all Fourier
+modes of the padded grid retained.  The solver works on a periodic padded domain: the tail of the
+footprint that leaves it re-enters as a periodic image, which for winds a few degrees off a grid
+axis crosses the inner domain off-axis and pulls the centroid.  Explored on the unchanged solver
+(every 1 deg, stable L=+100 being the worst): max bearing error 2.1 deg with this halo (3.4 deg
+with halo = max, 1.1 deg with 2*max); truncated mode sets (64x64 of 192x192) add up to 5 deg
+through Gibbs ringing and are therefore not used as evidence.  Tolerance: 5 degrees.
 """
 import math
 import os
@@ -29,7 +31,7 @@ S = Suite(
     bound="wind_dir every 45 deg (quick) / 15 deg (thorough) plus seeded off-lattice angles x "
           "{neutral, L=-50, L=+100} x {MOST, MOSTM} x grids {64x64 square, 128x64 and 64x128 with "
           "square cells, 64x64 with 2:1 cells} x 3 reference positions (50N 11E, 33S 179.9E, "
-          "0N 70W) x speeds 2.5/4/7 m/s; zm = 4 m, nz = 8, 5 m cells, single precision; other "
+          "0N 70W) x speeds 2.5/4/7 m/s x zm 2/3/4 m; nz = 8, 5 m cells, single precision; other "
           "heights, resolutions, off-centre towers not examined",
     rule="|bearing(centroid - tower) - wind_dir| <= 5 deg, centroid at least two cells away from "
          "the tower; |hypot(u,v) - s| <= 1e-12 s; cardinals to 1e-12 s",
@@ -49,7 +51,7 @@ def angdiff(a, b):
 
 
 @S.kind("bearing")
-def bearing(wind_dir, mol, closure, grid, ref, wind_speed):
+def bearing(wind_dir, mol, closure, grid, ref, wind_speed, zm):
     import numpy as np
     from bldfm.config_parser import parse_config_dict
     from bldfm.interface import run_bldfm_single
@@ -58,13 +60,13 @@ def bearing(wind_dir, mol, closure, grid, ref, wind_speed):
     xmax, ymax = nx * dx, ny * dy
     ref_lat, ref_lon = REFS[ref]
     lat, lon = xy_to_latlon(xmax / 2.0, ymax / 2.0, ref_lat, ref_lon)
-    halo = max(xmax, ymax)
+    halo = 1.5 * max(xmax, ymax)
     px, py = int(round(halo / dx)), int(round(halo / dy))
     cfg = parse_config_dict({
         "domain": {"nx": nx, "ny": ny, "xmax": xmax, "ymax": ymax, "nz": 8,
                    "modes": [nx + 2 * px, ny + 2 * py], "halo": halo,
                    "ref_lat": ref_lat, "ref_lon": ref_lon},
-        "towers": [{"name": "T", "lat": float(lat), "lon": float(lon), "z_m": 4.0}],
+        "towers": [{"name": "T", "lat": float(lat), "lon": float(lon), "z_m": zm}],
         "met": {"ustar": 0.1 * wind_speed, "mol": mol, "wind_speed": wind_speed,
                 "wind_dir": wind_dir},
         "solver": {"closure": closure, "footprint": True},
@@ -86,8 +88,8 @@ def bearing(wind_dir, mol, closure, grid, ref, wind_speed):
     dist = math.hypot(cx, cy)
     b = math.degrees(math.atan2(cx, cy)) % 360.0  # clockwise from north
     err = angdiff(b, wind_dir)
-    tag = "wd=%r L=%r %s %s %s ws=%r: centroid %.1f m from the tower at bearing %.2f" \
-          % (wind_dir, mol, closure, grid, ref, wind_speed, dist, b)
+    tag = "wd=%r L=%r %s %s %s ws=%r zm=%r: centroid %.1f m from the tower at bearing %.2f" \
+          % (wind_dir, mol, closure, grid, ref, wind_speed, zm, dist, b)
     if dist < 2.0 * max(dx, dy):
         return Verdict(False, tag + " - no upwind displacement", key="no-upwind-displacement")
     if err > 5.0:
@@ -153,13 +155,15 @@ def generate(tier, rng):
                 for wd in range(0, 360, step):
                     k += 1
                     yield "bearing", dict(wind_dir=float(wd), mol=mol, closure=closure, grid=grid,
-                                          ref=refs[k % 3], wind_speed=(4.0, 2.5, 7.0)[(k // 3) % 3])
+                                          ref=refs[k % 3], wind_speed=(4.0, 2.5, 7.0)[(k // 3) % 3],
+                                          zm=(4.0, 2.0, 3.0)[(k // 9) % 3])
     for k in range(12 if q else 96):
         yield "bearing", dict(wind_dir=round(rng.uniform(0.0, 360.0), 3),
                               mol=rng.choice([1e9, -50.0, 100.0, -15.0, 400.0]),
                               closure=rng.choice(["MOST", "MOSTM"]),
                               grid=rng.choice(list(grids)), ref=rng.choice(refs),
-                              wind_speed=rng.choice([2.5, 4.0, 7.0]))
+                              wind_speed=rng.choice([2.5, 4.0, 7.0]),
+                              zm=rng.choice([2.0, 3.0, 4.0]))
 
 
 if __name__ == "__main__":
